@@ -9,6 +9,7 @@ mod container;
 mod convert;
 mod indep;
 mod mem;
+mod pipeline;
 mod util;
 
 fn main() {
@@ -29,6 +30,7 @@ fn main() {
 		("stress", "C13") => c13::stress(&args[3], &args[4], seed, thorough),
 		("replay", "C14") => c14::replay(&args[3], &args[4]),
 		("record", "C14") => c14::record(&args[3], seed, thorough),
+		("replay", "PIPELINE") => pipeline::replay(&args[3], &args[4], &args[5]),
 		("replay", "CONVERT") => convert::replay(&args[3], &args[4], &args[5]),
 		("replay", "CONTAINER") => container::replay(&args[3], &args[4], &args[5], &args[6]),
 		("record", "CONTAINER") => container::record(&args[3], &args[4], seed, thorough, &args[5]),
